@@ -15,7 +15,7 @@ ASSUME_COMMON = [
 PROPS = {}
 
 PROPS["C16"] = dict(
-    units=[dict(name="c16-mpi-shim", src="props/c04.cpp", deps=["lib/shim/mpi.h"], flags=["-DVERIF_T=double", "-DVERIF_AS=16", "-I", "@HERE@/lib/shim", "-pthread"], libs=["-ldl", "-pthread"], quick=dict(shards=2, cases=250), thorough=dict(shards=4, cases=8000)),
+    units=[dict(name="c16-mpi-shim", src="props/c04.cpp", enum=True, deps=["lib/shim/mpi.h"], flags=["-O2", "-DVERIF_T=double", "-DVERIF_AS=16", "-I", "@HERE@/lib/shim", "-pthread"], libs=["-ldl", "-pthread"], quick=dict(shards=2, cases=250), thorough=dict(shards=4, cases=8000)),
            dict(name="c16", src="props/c16.cpp", enum=True)],
     rule="case = (total, world) checked for every rank (world <= 2048) or 8 structural + 24 sampled ranks "
          "against a 128-bit integer tiling model; non-trivial: world >= 2 and total mod world != 0; "
@@ -220,7 +220,7 @@ PROPS["C14"] = dict(
          "compensated from naive summation; distinct = distinct description",
     quick=dict(shards=8, cases=250),
     thorough=dict(shards=16, cases=1500),
-    floors={"separates-naive-from-compensated": 0.08, "dist-1d": 0.15, "dist-2d": 0.15, "negated": 0.15},
+    floors={"separates-naive-from-compensated": 0.08, "dist-1d": 0.15, "dist-2d": 0.15, "negated": 0.15, "two-distributions": 0.08},
     level_text="generated adversarial sequences through real iterations; the reported sum (and every distribution bin "
                "sum after the documented 1/area scaling) is compared with the exact sum of the very values the library "
                "adds, computed with non-overlapping expansions: |sum - exact| <= (4 eps + 4 N eps^2) sum|v| (Kahan's "
@@ -291,7 +291,7 @@ PROPS["C11"] = dict(
          "a coordinate on an edge or outside the range and >= 2 bins filled; distinct = distinct description",
     quick=dict(shards=4, cases=600),
     thorough=dict(shards=8, cases=40000),
-    floors={"differential": 0.4, "2d": 0.3, "several-distributions": 0.4},
+    floors={"differential": 0.25, "2d": 0.2, "several-distributions": 0.3},
     level_text="(A) placement model: floor((x - min) / size) in long double decides the bin (x fastest, then y); a "
                "coordinate within 4 eps (|x| + |min|) of an edge may go to either neighbour, anything outside, +-inf and "
                "NaN to no bin; the value arrives as value / area; mid-points lie inside their bins; (B) differential: "
@@ -441,7 +441,7 @@ PROPS["C01"] = dict(
     quick=dict(shards=8, cases=400),
     thorough=dict(shards=16, cases=8000),
     floors={"VEGAS": 0.25, "MULTI": 0.25, "PLAIN": 0.1, "non-uniform-grid": 0.15, "disabled-channel": 0.05, "common-jacobian-factor": 0.1,
-            "uncovered-cells": 0.02, "vegas-high-dimension": 0.02},
+            "uncovered-cells": 0.02, "vegas-high-dimension": 0.02, "with-distribution": 0.25},
     level_text="noise-free quadrature oracle: the integrators are driven by a scripted engine that plays a complete "
                "midpoint lattice in the space of the random numbers, so the estimate must equal the closed-form integral "
                "of the multilinear integrand (over the cells covered by an enabled channel) within 64 eps (d + channels) "
